@@ -1,5 +1,5 @@
 (* C06 -- lemmas about Model/Stores.v *)
-From Oras Require Import Base.Prelude Model.Stores.
+From Oras Require Import Base.Prelude Generated.GC06 Model.Stores.
 From Coq Require Import Permutation.
 
 (* ---------- decidable keys ---------- *)
@@ -1346,3 +1346,18 @@ Lemma file_trailing_witness :
   snd (runf (file_step true false false) file_init [Push w_unnamed w_trailing; Fetch w_unnamed])
     = [FO OOk; FO (OBytes 1 5)] /\ b_len w_trailing = 6.
 Proof. vm_compute. auto. Qed.
+
+
+(* ---------- tie to the source: which media types are manifests ----------
+   The model numbers the manifest media types 1..5 and gives exactly them successors.
+   Generated/GC06.v holds the case labels of descriptor.IsManifest and of
+   content.Successors as re-read from the Go sources on every run. *)
+Lemma manifest_types_from_source :
+  (forall x, In x isManifest_cases <-> In x successors_cases) /\
+  length isManifest_cases = 5%nat /\ NoDup isManifest_cases.
+Proof.
+  split; [|split].
+  - intro x. unfold isManifest_cases, successors_cases. simpl. tauto.
+  - reflexivity.
+  - unfold isManifest_cases. repeat constructor; simpl; intuition discriminate.
+Qed.
